@@ -20,6 +20,7 @@ import RV.Proofs.C01Ias15Sweep
 import RV.Proofs.C01Dispatch
 import RV.Proofs.C01Changeover
 import RV.Proofs.C01ChangeoverAll
+import RV.Proofs.C01ChangeoverMono
 import RV.Proofs.C01Flow
 /-
   C01 — every integrator converges to the true N-body solution at its advertised order.   **PARTIAL.**
@@ -358,9 +359,17 @@ theorem c01_changeover_properties : ∀ p ∈ [Changeover.pMercury, Changeover.p
 /-- L_mercury is monotone non-decreasing in the distance for every dcrit > 0 (full strength) -/
 theorem c01_changeover_mercury_monotone (d d' dcrit : Rat) (hc : 0 < dcrit) (h : d ≤ d') :
     Changeover.Lmercury d dcrit ≤ Changeover.Lmercury d' dcrit := ChangeoverAll.mercury_changeover_mono d d' dcrit hc h
-/-- PARTIAL for L_C4 / L_C5 (full statement: `∀ d ≤ d', L d dcrit ≤ L d' dcrit` as for L_mercury; missing: monotonicity of the
-    degree-9 / degree-11 polynomials on [0,1] — `ChangeoverAll.changeover_mono` reduces the full statement to exactly that):
-    monotone on a grid of 251 distances across the transition -/
+/-- L_C4 and L_C5 are monotone non-decreasing in the distance for every dcrit > 0 (full strength; the degree-9 / degree-11
+    polynomials are monotone on [0,1] because their derivatives over ℝ are 630 y⁴(1−y)⁴ and 2772 y⁵(1−y)⁵ — mean-value theorem,
+    `ChangeoverMono.c4R_mono`, `c5R_mono` — and ℚ → ℝ is an order embedding commuting with the source's operation order) -/
+theorem c01_changeover_c4_c5_monotone (d d' dcrit : Rat) (hc : 0 < dcrit) (h : d ≤ d') :
+    Changeover.LC4 d dcrit ≤ Changeover.LC4 d' dcrit ∧ Changeover.LC5 d dcrit ≤ Changeover.LC5 d' dcrit :=
+  ⟨ChangeoverMono.c4_changeover_mono d d' dcrit hc h, ChangeoverMono.c5_changeover_mono d d' dcrit hc h⟩
+/-- non-vacuity: strict increase inside the transition zone (dcrit = 1, d = 0.4 → 0.7), both functions -/
+example : Changeover.LC4 (4/10) 1 < Changeover.LC4 (7/10) 1 ∧ Changeover.LC5 (4/10) 1 < Changeover.LC5 (7/10) 1 ∧
+    Changeover.LC4 (4/10) 1 = 2851/19683 := by decide +kernel
+/-- grid form of the same statement (kept: it is decided by the kernel on the translator-derived table `ChangeoverT`, independent of
+    the real-analysis argument above): monotone on a grid of 251 distances across the transition -/
 theorem c01_changeover_monotone_partial : ∀ L ∈ [Changeover.Lmercury, Changeover.LC4, Changeover.LC5], ∀ k ∈ List.range 250,
     L ((k : Rat) / 200 * (7/3)) (7/3) ≤ L (((k : Rat) + 1) / 200 * (7/3)) (7/3) := ChangeoverT.monotone_on_grid
 /-- non-vacuity: the hypotheses are satisfiable inside the transition zone (d = 0.4, d' = 0.7, dcrit = 1: y = 1/3, y' = 2/3) -/
